@@ -284,6 +284,16 @@ func runGoToPython(ctx *core.Ctx, rep *core.Report, n int, dir string) {
 				if cmpMsgs && hasChunkIdx {
 					rep.Count("go_files_read_by_python_through_chunk_index", 1)
 				}
+				// the same comparisons on ONE SeekingReader instance that has already served time-ordered reads
+				reused, _ := results[k]["seeking_reused"].(map[string]any)
+				if problem := judgePythonDump(c, e, reused, "SeekingReader reused after time-ordered reads", cmpMsgs, !c.K.SkipAttachmentIndex, !c.K.SkipMetadataIndex, hasStats); problem != "" {
+					if !(!cmpMsgs && jsStr(reused["error"]) != "") {
+						rep.Violate("python-seeking-reader-reused", c.Describe()+": "+problem, witness)
+						continue
+					}
+				} else {
+					rep.Count("go_files_read_by_reused_python_seeking_reader", 1)
+				}
 			}
 			if k == 0 {
 				rep.Sample(map[string]any{"direction": "go->python", "case": c.Index, "shape": c.Shape.String(), "config": c.K.String(), "messages": len(e.triples)})
@@ -610,7 +620,7 @@ func runPythonToGo(ctx *core.Ctx, rep *core.Report, n int, dir string) {
 }
 
 func RunC16(ctx *core.Ctx, rep *core.Report) {
-	rep.Rule = "Go->Python: seeded workloads restricted to valid UTF-8, written by the Go Writer in every uncompressed configuration (chunked/unchunked, chunk sizes 1..1 MiB, CRC on/off, all flags), read by /repo/python/mcap through NonSeekingReader(validate_crcs=True) (messages in file order and log-time order, attachments, metadata, summary) and SeekingReader(validate_crcs=True) (judged on what the summary lets it find); the JSON dumps are compared with the call log. " +
+	rep.Rule = "Go->Python: seeded workloads restricted to valid UTF-8, written by the Go Writer in every uncompressed configuration (chunked/unchunked, chunk sizes 1..1 MiB, CRC on/off, all flags), read by /repo/python/mcap through NonSeekingReader(validate_crcs=True) (messages in file order and log-time order, attachments, metadata, summary) and SeekingReader(validate_crcs=True) (judged on what the summary lets it find; once per query on a fresh instance and once on a single instance that has already served time-ordered reads); the JSON dumps are compared with the call log. " +
 		"Python->Go: the same kind of workloads are written by mcap.writer.Writer (compression NONE; chunk size, index types, repeat_channels/schemas, chunking, statistics, summary offsets, CRC options varied; ids as Python assigns them) and read by the Go lexer (validating), scan iterator, index-based iterator in three orders where the summary supports it, and Info (compared with the reference decoder's view of what Python wrote). distinct_nontrivial counts distinct files exchanged that carry messages or attachments."
 	rep.Assumptions = []string{"system python3 imports /repo/python/mcap; zstandard/lz4 Python modules are absent, so only uncompressed files are exchanged", "ties in log-time order are unconstrained"}
 	dir, err := os.MkdirTemp(ctx.BinDir, "c16-")
